@@ -303,15 +303,46 @@ func registerModels(P *Program) {
 		}
 	}
 	// sync/atomic on plain cells
-	m["sync/atomic.AddUint64"] = func(ex *Exec, fn *ssa.Function, args []Value) (Value, bool) {
-		p := args[0].(Pointer)
-		ex.yieldPoint(&access{c: p.C, write: true, atomic: true}, nil)
-		v := smt.Wrap(smt.Add(term(p.C.V), term(args[1])), false, 64)
-		p.C.V = v
-		return v, true
-	}
-	m["sync/atomic.LoadUint64"] = func(ex *Exec, fn *ssa.Function, args []Value) (Value, bool) {
-		return args[0].(Pointer).C.V, true
+	for _, ty := range []struct {
+		name   string
+		signed bool
+		bits   uint
+	}{{"Uint64", false, 64}, {"Int64", true, 64}, {"Uint32", false, 32}, {"Int32", true, 32}} {
+		ty := ty
+		m["sync/atomic.Add"+ty.name] = func(ex *Exec, fn *ssa.Function, args []Value) (Value, bool) {
+			p := args[0].(Pointer)
+			ex.yieldPoint(&access{c: p.C, write: true, atomic: true}, nil)
+			v := smt.Wrap(smt.Add(term(p.C.V), term(args[1])), ty.signed, ty.bits)
+			p.C.V = v
+			return v, true
+		}
+		m["sync/atomic.Load"+ty.name] = func(ex *Exec, fn *ssa.Function, args []Value) (Value, bool) {
+			p := args[0].(Pointer)
+			ex.yieldPoint(&access{c: p.C, atomic: true}, nil)
+			return p.C.V, true
+		}
+		m["sync/atomic.Store"+ty.name] = func(ex *Exec, fn *ssa.Function, args []Value) (Value, bool) {
+			p := args[0].(Pointer)
+			ex.yieldPoint(&access{c: p.C, write: true, atomic: true}, nil)
+			p.C.V = args[1]
+			return nil, true
+		}
+		m["sync/atomic.Swap"+ty.name] = func(ex *Exec, fn *ssa.Function, args []Value) (Value, bool) {
+			p := args[0].(Pointer)
+			ex.yieldPoint(&access{c: p.C, write: true, atomic: true}, nil)
+			old := p.C.V
+			p.C.V = args[1]
+			return old, true
+		}
+		m["sync/atomic.CompareAndSwap"+ty.name] = func(ex *Exec, fn *ssa.Function, args []Value) (Value, bool) {
+			p := args[0].(Pointer)
+			ex.yieldPoint(&access{c: p.C, write: true, atomic: true}, nil)
+			if ex.branch(smt.Eq(term(p.C.V), term(args[1]))) {
+				p.C.V = args[2]
+				return smt.True, true
+			}
+			return smt.False, true
+		}
 	}
 	// sync primitives (state kept in the opaque zero value of the object)
 	syncObj := func(ex *Exec, v Value) *Opaque {
@@ -432,6 +463,7 @@ func (ex *Exec) primExt(fn *ssa.Function, args []Value) (Value, bool) {
 		f.Mode = term(args[2])
 		f.HasData = smt.False
 		ex.umaskT = term(args[3])
+		f.Link = smt.And(f.Exists, term(args[4]))
 		return name, true
 	case "vpxKeyXML":
 		n, _ := term(args[0]).ConstInt64()
